@@ -12,6 +12,13 @@ Theorem C11_parse_depends_on_tokens : forall fparse crank a b,
   lex a = lex b -> parse_source fparse crank a = parse_source fparse crank b.
 Proof. exact parse_depends_on_tokens. Qed.
 
+(* parser instances carry no state between calls in the model: the k-th outcome of a sequence
+   of calls is the outcome of the k-th text alone (the harness parses groups of texts, failing
+   and valid ones mixed, on ONE cdcn.Parser().Make() instance and compares every call) *)
+Theorem C11_calls_independent : forall fparse crank before src after,
+  nth (length before) (calls fparse crank (before ++ src :: after)) POutOfFuel = parse_source fparse crank src.
+Proof. exact calls_independent. Qed.
+
 (* literal_exact: an accepted source contains no literal whose conversion failed — an
    out-of-range integer or hexadecimal, an escape Go rejects, an overflowing float (also as a part
    of a complex literal) are never replaced by another value ... *)
@@ -166,6 +173,7 @@ Example C11_ex_float_through_oracle :
 Proof. vm_compute. reflexivity. Qed.
 
 Print Assumptions C11_parse_depends_on_tokens.
+Print Assumptions C11_calls_independent.
 Print Assumptions C11_literal_exact.
 Print Assumptions C11_accepted_consumes_all.
 Print Assumptions C11_literal_rejected_is_located.
